@@ -85,6 +85,16 @@ func newSubProcess(parentCtx context.Context, eventBuilder event.IDefinitionInst
 			mch:                    make(chan imessage, len(parentWiring.incoming)*2+1),
 		}
 
+		// events handed to the enclosing instance (or sub-process) must reach the
+		// event nodes inside this sub-process: they register with the sub-process
+		// (it is their event egress), which in turn has to be a consumer of the
+		// enclosing scope - otherwise nobody ever calls its ConsumeEvent and a
+		// catch event inside a sub-process listens in vain
+		err = parentWiring.eventEgress.RegisterEventConsumer(process)
+		if err != nil {
+			return
+		}
+
 		locator := parentWiring.locator
 		err = data.ElementToLocator(locator, idGenerator, subProcessElement)
 		if err != nil {
